@@ -406,6 +406,10 @@ Definition pred_c07 (g : ghost) (w : world) (a : action) (O : oracle) (w' : worl
   end.
 
 (* ---- C12: one-time secrets ---------------------------------------------------------------- *)
+(* the TOTP code that completed this account's most recent TOTP step (ghost entries tagged "totp:") *)
+Definition last_totp (g : ghost) (U : bytes) : option bytes :=
+  fold_left (fun acc p => if beqb (fst p) U && bprefix (bs "totp:") (snd p) then Some (skipn 5 (snd p)) else acc) (g_used g) None.
+
 Definition used_before (g : ghost) (U x : bytes) : bool :=
   existsb (fun p => beqb (fst p) U && beqb (snd p) x) (g_used g).
 
@@ -450,8 +454,13 @@ Definition pred_c12 (g : ghost) (w : world) (a : action) (O : oracle) (w' : worl
               if bempty rc then
                 match user_of w U with
                 | Some u => (* the same code: as the validator reads it, i.e. without surrounding white space *)
-                            if negb (bempty (u_totp_last u)) && beqb (trim_space (u_totp_last u)) (trim_space (aget f_code vals))
-                            then [1124] else []
+                            (if negb (bempty (u_totp_last u)) && beqb (trim_space (u_totp_last u)) (trim_space (aget f_code vals))
+                             then [1124] else []) ++
+                            (* ... and whatever was tried in between: the code of this account's previous
+                               completed TOTP step does not complete the next one *)
+                            (if c_onetime cfg &&
+                                match last_totp g U with Some c => beqb c (trim_space (aget f_code vals)) | None => false end
+                             then [1128] else [])
                 | None => [] end
               else (if used_before g U rc then [1122] else []) ++ (if rc_valid u' rc then [1123] else [])
           | RSmsValidate, Some u' =>
@@ -724,6 +733,23 @@ Definition pred_c18 (g : ghost) (w : world) (a : action) (O : oracle) (w' : worl
                       negb (obytes_eq (uid_in (sess_of w (q_browser r))) (uid_in (io_sess i))) &&
                       match uid_in (io_sess i) with Some _ => true | None => false end then [1182] else []
                | None => []
+               end
+           end)
+          ++
+          (* the same, said on the state instead of on the call list: whichever call failed, a request that
+             ends logged in on a one-time password or recovery code leaves that value unusable *)
+          (let before := uid_in (sess_of w (q_browser r)) in
+           let after := uid_in (io_sess i) in
+           if obytes_eq before after then [] else
+           match after with
+           | None => []
+           | Some U =>
+               match q_route r, iuser_of i U with
+               | ROtpLogin, Some u' => if otp_valid u' (aget f_password (values_of r)) then [1184] else []
+               | RTotpValidate, Some u' | RSmsValidate, Some u' =>
+                   let rc := aget f_recovery_code (values_of r) in
+                   if negb (bempty rc) && rc_valid u' rc then [1184] else []
+               | _, _ => []
                end
            end)
       | _ =>
